@@ -135,7 +135,9 @@ def check(prop_id, tier, seed):
         ctx.evaluations = 0; ctx.keys.clear(); ctx.classes.clear()
         ctx.first_samples = []; ctx.big_samples = []
         # (2) committed corpus
-        for p in sorted(glob.glob(os.path.join(env.VERIF, 'corpus', prop_id, '*.json'))):
+        corpus = [] if os.environ.get('VERIF_NO_CORPUS') else \
+            sorted(glob.glob(os.path.join(env.VERIF, 'corpus', prop_id, '*.json')))
+        for p in corpus:
             with open(p) as f:
                 payload = json.load(f)
             case = payload['case'] if isinstance(payload, dict) and 'case' in payload else payload
